@@ -6,9 +6,9 @@ import (
 	v "github.com/goreleaser/nfpm/v2/internal/zzverif"
 )
 
-// isCleanAbs is the independent oracle for "absolute and lexically clean":
+// verifIsCleanAbs is the independent oracle for "absolute and lexically clean":
 // starts with '/', no empty, "." or ".." component, no trailing '/' (except root).
-func isCleanAbs(p string) bool {
+func verifIsCleanAbs(p string) bool {
 	if len(p) == 0 || p[0] != '/' {
 		return false
 	}
@@ -31,7 +31,7 @@ func isCleanAbs(p string) bool {
 	return true
 }
 
-func hasByte(s string, c byte) bool {
+func verifHasByte(s string, c byte) bool {
 	for i := 0; i < len(s); i++ {
 		if s[i] == c {
 			return true
@@ -47,7 +47,7 @@ func Verif_C05_K1_NormalizeFile() {
 	r := NormalizeAbsoluteFilePath(s)
 	v.Reach("K1.file.ran")
 	v.Observe("r", r)
-	v.Assert(isCleanAbs(r), "file-clean-abs")
+	v.Assert(verifIsCleanAbs(r), "file-clean-abs")
 	v.Assert(NormalizeAbsoluteFilePath(r) == r, "file-idempotent")
 }
 
@@ -59,7 +59,7 @@ func Verif_C05_K1_NormalizeDir() {
 	v.Observe("d", d)
 	v.Assert(len(d) > 0 && d[len(d)-1] == '/', "dir-trailing-slash")
 	if d != "/" {
-		v.Assert(isCleanAbs(d[:len(d)-1]), "dir-clean-abs")
+		v.Assert(verifIsCleanAbs(d[:len(d)-1]), "dir-clean-abs")
 	}
 	v.Assert(NormalizeAbsoluteDirPath(d) == d, "dir-idempotent")
 	// agrees with the file form of the same spelling without trailing slashes
@@ -75,8 +75,8 @@ func Verif_C05_K1_NormalizeDir() {
 	}
 }
 
-// isCleanRel: relative, no empty/./.. component; optional single trailing '/'.
-func isCleanRel(p string, allowTrailing bool) bool {
+// verifIsCleanRel: relative, no empty/./.. component; optional single trailing '/'.
+func verifIsCleanRel(p string, allowTrailing bool) bool {
 	if len(p) == 0 {
 		return true
 	}
@@ -89,7 +89,7 @@ func isCleanRel(p string, allowTrailing bool) bool {
 			return false
 		}
 	}
-	return isCleanAbs("/" + p)
+	return verifIsCleanAbs("/" + p)
 }
 
 // Verif_C05_K1_Relative: AsRelativePath / AsExplicitRelativePath of a
@@ -109,7 +109,7 @@ func Verif_C05_K1_Relative() {
 	if f != "/" {
 		// (that the directory spelling keeps its trailing '/' is a C04 clause and is asserted there)
 		v.Assert(rd == f[1:]+"/" || rd == f[1:], "rel-dir-is-abs-minus-slash")
-		v.Assert(isCleanRel(rd, true) && isCleanRel(rf, false), "rel-clean")
+		v.Assert(verifIsCleanRel(rd, true) && verifIsCleanRel(rf, false), "rel-clean")
 	}
 }
 
@@ -139,7 +139,7 @@ func Verif_C05_K1_Parents() {
 	}
 }
 
-func c05content(prefix string, n int) *Content {
+func verifC05content(prefix string, n int) *Content {
 	return &Content{
 		Destination: v.NondetString(prefix+".dst", n),
 		Type:        v.NondetString(prefix+".type", n),
@@ -151,7 +151,7 @@ func c05content(prefix string, n int) *Content {
 // (Destination, Type, Packager) and orders a directory before what it contains.
 func Verif_C05_K2_Order() {
 	n := v.Bound("K2.len", 2, 3)
-	c := Contents{c05content("a", n), c05content("b", n), c05content("c", n)}
+	c := Contents{verifC05content("a", n), verifC05content("b", n), verifC05content("c", n)}
 	v.Reach("K2.ran")
 	ab, ba := c.Less(0, 1), c.Less(1, 0)
 	bc, ac := c.Less(1, 2), c.Less(0, 2)
@@ -175,7 +175,7 @@ func Verif_C05_K2_DirBeforeChildren() {
 	v.Assert(c.Less(0, 1) && !c.Less(1, 0), "dir-sorts-before-its-children")
 }
 
-var c05types = []string{TypeFile, TypeDir, TypeImplicitDir, TypeTree, TypeSymlink, TypeConfig, TypeConfigNoReplace,
+var verifC05types = []string{TypeFile, TypeDir, TypeImplicitDir, TypeTree, TypeSymlink, TypeConfig, TypeConfigNoReplace,
 	TypeConfigMissingOK, TypeRPMGhost, TypeRPMDoc, TypeRPMLicence, TypeRPMLicense, TypeRPMReadme, TypeDebChangelog, ""}
 
 // Verif_C05_K3_Relevance: an entry is relevant iff it is addressed to this
@@ -184,9 +184,9 @@ func Verif_C05_K3_Relevance() {
 	pk := v.NondetString("packager", v.Bound("K3.len", 4, 9))
 	tag := v.NondetString("tag", v.Bound("K3.len", 4, 9))
 	var typ string
-	k := v.NondetChoice("type", len(c05types)+1)
-	if k < len(c05types) {
-		typ = c05types[k]
+	k := v.NondetChoice("type", len(verifC05types)+1)
+	if k < len(verifC05types) {
+		typ = verifC05types[k]
 	} else {
 		typ = v.NondetString("othertype", 3)
 	}
